@@ -116,8 +116,8 @@ def multiline(rng, src):
 
 def core_cases(ctx):
     rng = ctx.rng
-    progs = [("core-failing-construct",) + build_core(rng) for _ in range(ctx.scale(800, 40000))]
-    progs += [("core-multiline", multiline(rng, c02.core_program(rng, typed=(k % 4 == 0))), None) for k in range(ctx.scale(1200, 60000))]
+    progs = [("core-failing-construct",) + build_core(rng) for _ in range(ctx.scale(800, 8000))]
+    progs += [("core-multiline", multiline(rng, c02.core_program(rng, typed=(k % 4 == 0))), None) for k in range(ctx.scale(1200, 12000))]
     lines = lang_lines(ctx, [s for _, s, _ in progs], op="core")
     return [Case(l, (t,), extra={"src": s, "expect_line": e}) for l, (t, s, e) in zip(lines, progs)]
 
